@@ -37,7 +37,7 @@ def t_struct(chk, ix):
     rules_parser.check_tags_consumed(chk, ix, "P6")
     rules_parser.check_docstring_protocol(chk, ix)
     rules_parser.check_cell_roundtrip(chk, ix)
-    rules_parser.check_tag_line(chk, ix)
+    rules_parser.check_tag_line(chk, ix, chk.tier)
 
 
 def run(chk, ix, tier):
